@@ -128,6 +128,11 @@ func (b *Buffer) GetBlob() (ociregistry.Descriptor, []byte, error) {
 func (b *Buffer) Write(data []byte) (int, error) {
 	b.mu.Lock()
 	defer b.mu.Unlock()
+	if b.committed {
+		// The content has been checked against its digest and is being (or has been)
+		// committed, so it must not change any more.
+		return 0, fmt.Errorf("cannot write to upload that has been committed")
+	}
 	if offset := b.checkStartOffset; offset != -1 {
 		// Can't call Buffer.Size, since we are already holding the mutex.
 		if int64(len(b.buf)) != offset {
